@@ -1,11 +1,28 @@
 #!/bin/bash
+# Instrumenter stress test: a file with every statement form the instrumenter
+# rewrites (incl. goroutines, WaitGroup, channels, select, timers) is added to a
+# scratch copy of /repo; the copy must build, its tests must pass with the
+# simulator off, the channel/goroutine models must give the right results under
+# seeded schedules with the same interleaving hash at every GOMAXPROCS and under
+# the race detector, and a C12 check on the copy must stay silent.
 set -e
 export GOFLAGS=-mod=mod GOPROXY=off GOSUMDB=off GOTOOLCHAIN=local
 d=$(mktemp -d /tmp/inststress-XXXX); cp -r /repo/. $d/; rm -rf $d/.git
 cp /verif/tools/inststress/zz_syntax.go.txt $d/zz_syntax.go
 cp /verif/tools/inststress/zz_syntax_test.go.txt $d/zz_syntax_test.go
-(cd $d && go build ./... && go test -vet=off -count=1 -run TestSyntaxKitchenSink . | tail -1)
-VERIF_REPO=$d /verif/bin/vcheck prepare | tail -3
+(cd $d && go build ./... && go test -vet=off -count=1 -run "TestSyntaxKitchenSink|TestSyntaxChannels" . | tail -1)
+s=$(VERIF_REPO=$d /verif/bin/vcheck prepare --keep | grep -o "scratch=[^ ]*" | cut -d= -f2)
+cp /verif/tools/inststress/zz_sched_test.go.txt $s/repo/zz_sched_test.go
+h=""
+for p in 1 4 16; do
+  x=$(cd $s/repo && GOMAXPROCS=$p go test -v -tags verif -vet=off -count=1 -run TestSchedChannels . 2>&1 | grep -E "ALLHASH|FAIL|ABORT|DATA RACE" | head -3)
+  echo "GOMAXPROCS=$p $x"; h="$h|$x"
+done
+x=$(cd $s/repo && GOMAXPROCS=1 go test -race -v -tags verif -vet=off -count=1 -run TestSchedChannels . 2>&1 | grep -E "ALLHASH|FAIL|ABORT|DATA RACE" | head -3)
+echo "race $x"; h="$h|$x"
+n=$(echo "$h" | tr '|' '\n' | grep -v '^$' | sort -u | wc -l)
+[ "$n" = 1 ] && echo "scheduled channel model: deterministic, results right" || { echo "scheduled channel model: MISMATCH"; rm -rf $s $d; exit 1; }
+rm -rf $s
 mkdir -p $d/.ev $d/.rp
 VERIF_REPO=$d VERIF_EVIDENCE_DIR=$d/.ev VERIF_REPLAY_DIR=$d/.rp /verif/bin/vcheck check C12 | tail -1
 rm -rf $d
